@@ -158,19 +158,20 @@ impl Builder {
 
 //@extract multiboot2-header/src/builder.rs :: impl Builder :: fn build
 //@  ret r
+//@  capture BR /let\s+mut\s+(\w+)\s*=\s*Vec::new\(\)/
 //@  rewrite /\.as_bytes\(\)\.as_ref\(\)/ => /.as_bytes().vbytes()/ x*
-//@  ghoststmt 2 => assert(concat_slices(byte_refs@) == flat(self.s1()) && all_mult8(self.s1()));
-//@  ghoststmt 3 => assert(concat_slices(byte_refs@) == flat(self.s2()) && all_mult8(self.s2()));
-//@  ghoststmt 4 => assert(concat_slices(byte_refs@) == flat(self.s3()) && all_mult8(self.s3()));
-//@  ghoststmt 5 => assert(concat_slices(byte_refs@) == flat(self.s4()) && all_mult8(self.s4()));
-//@  ghoststmt 6 => assert(concat_slices(byte_refs@) == flat(self.s5()) && all_mult8(self.s5()));
-//@  ghoststmt 7 => assert(concat_slices(byte_refs@) == flat(self.s6()) && all_mult8(self.s6()));
-//@  ghoststmt 8 => assert(concat_slices(byte_refs@) == flat(self.s7()) && all_mult8(self.s7()));
-//@  ghoststmt 9 => assert(concat_slices(byte_refs@) == flat(self.s8()) && all_mult8(self.s8()));
-//@  ghoststmt 10 => assert(concat_slices(byte_refs@) == flat(self.s9()) && all_mult8(self.s9()));
-//@  ghoststmt 11 => assert(concat_slices(byte_refs@) == flat(self.s10()) && all_mult8(self.s10()));
-//@  ghoststmt 13 => assert(concat_slices(byte_refs@) == flat(self.slots()).add(obj_bytes(&end_tag))); proof { lemma_all_mult8_flat(self.slots()); lemma_round8_props(16 + flat(self.slots()).len() as int + 8); }
-//@  rewrite /new_boxed\(header, byte_refs\.as_slice\(\)\)\s*\}$/ => /let boxed: Box<DynSizedStructure<Multiboot2BasicHeader>> = new_boxed(header, byte_refs.as_slice());\n        proof { lemma_hdr_layouts(); let eb = obj_bytes(&end_tag); assert(decode::<HeaderTagHeader>(eb) == end_tag.header); assert(eb.len() == 8); assert(concat_slices(byte_refs@).len() == flat(self.slots()).len() + 8); assert(obj_bytes(&*boxed).subrange(16, 16 + flat(self.slots()).len() as int + 8) == flat(self.slots()).add(eb)); }\n        boxed\n    }/
+//@  ghoststmt 0 of /\.push\(/ => assert(concat_slices($BR@) == flat(self.s1()) && all_mult8(self.s1()));
+//@  ghoststmt 1 of /\.push\(/ => assert(concat_slices($BR@) == flat(self.s2()) && all_mult8(self.s2()));
+//@  ghoststmt 2 of /\.push\(/ => assert(concat_slices($BR@) == flat(self.s3()) && all_mult8(self.s3()));
+//@  ghoststmt 3 of /\.push\(/ => assert(concat_slices($BR@) == flat(self.s4()) && all_mult8(self.s4()));
+//@  ghoststmt 4 of /\.push\(/ => assert(concat_slices($BR@) == flat(self.s5()) && all_mult8(self.s5()));
+//@  ghoststmt 5 of /\.push\(/ => assert(concat_slices($BR@) == flat(self.s6()) && all_mult8(self.s6()));
+//@  ghoststmt 6 of /\.push\(/ => assert(concat_slices($BR@) == flat(self.s7()) && all_mult8(self.s7()));
+//@  ghoststmt 7 of /\.push\(/ => assert(concat_slices($BR@) == flat(self.s8()) && all_mult8(self.s8()));
+//@  ghoststmt 8 of /\.push\(/ => assert(concat_slices($BR@) == flat(self.s9()) && all_mult8(self.s9()));
+//@  ghoststmt 9 of /\.push\(/ => assert(concat_slices($BR@) == flat(self.s10()) && all_mult8(self.s10()));
+//@  ghoststmt 10 of /\.push\(/ => assert(concat_slices($BR@) == flat(self.slots()).add(obj_bytes(&end_tag))); proof { lemma_all_mult8_flat(self.slots()); lemma_round8_props(16 + flat(self.slots()).len() as int + 8); }
+//@  rewrite /new_boxed\(header, $BR\.as_slice\(\)\)\s*\}$/ => /let boxed: Box<DynSizedStructure<Multiboot2BasicHeader>> = new_boxed(header, $BR.as_slice());\n        proof { lemma_hdr_layouts(); let eb = obj_bytes(&end_tag); assert(decode::<HeaderTagHeader>(eb) == end_tag.header); assert(eb.len() == 8); assert(concat_slices($BR@).len() == flat(self.slots()).len() + 8); assert(obj_bytes(&*boxed).subrange(16, 16 + flat(self.slots()).len() as int + 8) == flat(self.slots()).add(eb)); }\n        boxed\n    }/
 //@  spec:
 //@    requires
 //@        // the header must be representable: its byte length fits the u32 length field
